@@ -97,12 +97,14 @@ Verdict(e, pre) ==
 
 \* a step is judged only from a pre-state that is itself consistent (the step that broke it was reported)
 Premise(pre) == NoSharing(pre) /\ NoDuplicates(pre) /\ HeldDetached(pre)
+\* and the operation must be applicable there (a scripted walk may name an object the implementation no longer holds)
+Applicable(e, pre) == Succ(pre, e.op) # {}
 
 Init == l = 1 /\ nontriv = 0 /\ failed = 0
 Next == /\ l <= Len(Events)
         /\ LET e == Events[l]
                pre == Abs(e.pre)
-               pm == Premise(pre)
+               pm == Premise(pre) /\ Applicable(e, pre)
                v == IF pm THEN Verdict(e, pre) ELSE "ok"
            IN /\ IF pm THEN TRUE ELSE PrintT(<<"T", e.id>>)
               /\ IF v = "ok" THEN TRUE ELSE PrintT(<<"V", e.id, v>>)
